@@ -73,7 +73,7 @@ CHECKS = {
    text="Four theorems over list matrices of any shape: premultiplied form = residual form for symmetric W (given the defining properties of G^T W G, G^T W d, "
         "d^T W d); Cholesky form; G^T is the adjoint of G; G^T W (G m - d) is the coordinate-wise derivative of the misfit (exact second-order expansion + "
         "Coquelicot). Tie: 160 generated instances per run over dense/sparse x scalar (python/numpy)/vector/full covariance x premultiplication x dtype x wrapper/"
-        "concrete x pickle: misfit, gradient, forward inside the Coq-Interval enclosure of the residual-form model at working precision; bounds.",
+        "concrete x pickle: misfit, gradient, forward inside the Coq-Interval enclosure of the residual-form model at working precision; bounds; thousands of data and strongly correlated covariances (cond 1e6..1e10, float64 back end) against the formula evaluated with numpy.",
    note="Trusted: Coq kernel, stdlib real axioms + classic; harness; numpy.linalg.inv in the harness supplies W = C^-1 to the model; MKL path not exercised (no MKL).",
    technique="Coq proof (bilinear algebra over lists, Coquelicot) + interval-arithmetic correspondence", ref="5/C15"),
  "C17": dict(
